@@ -14,7 +14,7 @@ ID = 'C03'
 LEVEL = 'exploration'
 RUNS = {'quick': 20000, 'thorough': 400000}
 CHUNK = 50
-PROBES = ['special_record', 'partial_tag_prefix_before_tag', 'earlier_dump_other_parser_object', 'multi_chunk', 'empty_chunk', 'cut_inside_window', 'cut_inside_lookup', 'decoy_tag_in_stackshot', 'gap_before_event_tag',
+PROBES = ['large_capture', 'special_record', 'partial_tag_prefix_before_tag', 'earlier_dump_other_parser_object', 'multi_chunk', 'empty_chunk', 'cut_inside_window', 'cut_inside_lookup', 'decoy_tag_in_stackshot', 'gap_before_event_tag',
           'header_plist_unaligned', 'two_kext_blocks', 'two_dyld_blocks', 'two_code_blocks', 'two_log_blocks', 'unpadded_last_block',
           'log_extends_tables', 'log_without_pid', 'strings_block_before_logs', 'xml_plists', 'no_blocks', 'unknown_block',
           'log_with_tai', 'cli_run']
@@ -43,6 +43,19 @@ def generate(rng, index, tier):
         w['cpu_info'] = {'x': 'y' * rng.randrange(0, 9)}      # every size residue mod 8
     if rng.chance(0.1):
         w['blocks'] = []
+    if index % 199 == 11:
+        # a long capture: very many event chunks, many blocks of each kind, hundreds of log records
+        w['chunks'] = sorted(rng.randrange(0, nrec + 1) for _ in range(rng.pick([64, 130, 300])))
+        w['gaps'] = []
+        evs, strs = worlds.gen_logs(rng, rng.pick([40, 300]), [t['tid'] for t in threads])
+        w['blocks'] = [b for b in w['blocks'] if b['kind'] not in ('logs', 'strings')]
+        w['blocks'] += [worlds._gen_block(rng, k) for k in ['kexts', 'dyld', 'codes'] * rng.pick([6, 20])]
+        w['blocks'] += [{'kind': 'logs', 'payload': {'Events': evs[i::4]}} for i in range(4)] + [{'kind': 'strings', 'payload': {'StringIndex': {s_: 1000 + 3 * i for i, s_ in enumerate(strs)}}}]
+        for b in w['blocks']:
+            if b['kind'] == 'logs':
+                b['payload']['Events'] = worlds._reindex(b['payload']['Events'], {i: 1000 + 3 * i for i in range(len(strs))})
+        rng.shuffle(w['blocks'])
+        scn['large'] = True
     if rng.chance(0.2) and w['chunks']:
         w['chunks'].append(rng.pick(w['chunks']))                # an empty chunk
         w['chunks'].sort()
@@ -108,6 +121,8 @@ def execute(scn):
     kinds = [b['kind'] for b in blocks]
     cuts = sorted(min(max(c, 0), len(rb)) for c in w.get('chunks', []))
     nchunks = len(cuts) + 1
+    if scn.get('large'):
+        bump('probe:large_capture')
     if nchunks > 1:
         bump('probe:multi_chunk')
     bounds = [0] + cuts + [len(rb)]
